@@ -14,10 +14,14 @@ OFF = 16          # static offset of every wait / notify / atomic store in the h
 MAXPAGES = 6
 
 
-def harness_module():
+def harness_module(imported=False):
+    """imported=True: the shared memory is imported from the embedder (the wasi-threads shape) instead of defined"""
     m = Module()
     T = m.type_index
-    m.memory = (1, MAXPAGES, True)
+    if imported:
+        m.imports.append((b'env', b'memory', 'memory', (1, MAXPAGES, True)))
+    else:
+        m.memory = (1, MAXPAGES, True)
     m.exports.append((b'memory', 'memory', 0))
 
     def add(name, ps, rs, body):
@@ -39,16 +43,16 @@ def harness_module():
 _bin = {}
 
 
-def harness_binary(asan=True):
-    key = ('h', asan)
+def harness_binary(asan=True, imported=False):
+    key = ('h', asan, imported)
     if key in _bin and os.path.exists(_bin[key]):
         return _bin[key]
     d = cexec.new_dir('vs')
-    tr = cexec.translate(wasm.encode(harness_module()), d, 'm', (), 'plain')
+    tr = cexec.translate(wasm.encode(harness_module(imported)), d, 'm', (), 'plain')
     if tr.rc != 0:
         raise cexec.InfraError('translating the schedule-harness module failed: %s' % tr.err[-300:])
     cc = ['clang', '-O1', '-g', '-w'] + (['-fsanitize=address,undefined', '-fno-sanitize-recover=all'] if asan else [])
-    cmd = cc + ['-DWASM_THREADS_PTHREADS', '-I', os.path.join(cexec.REPO, 'w2c2'), '-I', os.path.join(cexec.REPO, 'futex'),
+    cmd = cc + (['-DVF_IMPORTED_MEMORY=%d' % MAXPAGES] if imported else []) + ['-DWASM_THREADS_PTHREADS', '-I', os.path.join(cexec.REPO, 'w2c2'), '-I', os.path.join(cexec.REPO, 'futex'),
                 '-I', os.path.join(cexec.VERIF, 'c'), '-I', d,
                 os.path.join(cexec.VERIF, 'c', 'sched_harness.c'), os.path.join(cexec.VERIF, 'c', 'vsched.c'), os.path.join(d, 'm.c')] + \
         [os.path.join(cexec.REPO, 'futex', f) for f in cexec.FUTEX_SRCS] + WRAP_FLAGS + ['-o', os.path.join(d, 'harness'), '-lpthread', '-lm']
@@ -65,7 +69,7 @@ Ev = collections.namedtuple('Ev', 'tid idx op a b c res s0 s1 acqs')
 def run_case(case, asan=True, timeout=60):
     """case: {'threads': {tid: [[op,a,b,c],...]}, 'addrs': [...], 'decisions': hex, 'spurious': n}
     returns (status, events, extra): status in ok | deadlock | stuck | crash | timeout"""
-    exe = harness_binary(asan)
+    exe = harness_binary(asan, bool(case.get('imported')))
     lines = ['T %d' % len(case['threads']), 'D %s %d' % (case['decisions'] or '-', case.get('spurious', 3))]
     for tid in sorted(case['threads'], key=int):
         for op in case['threads'][tid]:
@@ -154,6 +158,8 @@ def check_futex(case, events):
             nb = 4 if e.op == 0 else 8
             cur = int.from_bytes(mem[ea:ea + nb], 'little')
             exp = e.b & ((1 << (nb * 8)) - 1)
+            if nb == 8 and cur != exp and (cur ^ exp) & 0xffffffff == 0:
+                classes.add('wait64_differs_in_high_half_only')
             if cur != exp:
                 if e.res != 1 or len(e.acqs) != 1:
                     return ('wait-should-not-block', 'thread %d: wait%d at effective address %d (operand %d + offset %d) holds %d, expected %d '
